@@ -98,6 +98,11 @@ static void h_run_case(hcase_t* c) {
     sched_mirror_t* m = (sched_mirror_t*)fiber_scheduler_for_thread(t);
     rt_reg((void*)&m->schedule_from, 8, 10 + 2 * t, 8);
     rt_reg((void*)&m->store_to, 8, 11 + 2 * t, 8);
+    /* start each run queue with a 4-entry array instead of the 256-entry one of wsd_work_stealing_deque_create: the
+     * growth boundary (and anything the scheduler does differently near it) is then crossed by ordinary cases; the
+     * scheduler model treats the deques as unbounded, so this is invisible in the traces of the unchanged code */
+    m->queue_one->underlying_array = wsd_circular_array_create(2);
+    m->queue_two->underlying_array = wsd_circular_array_create(2);
     rt_name(m->queue_one, sizeof(wsd_work_stealing_deque_t), 2 * t + 1, 1 << 20);
     rt_name(m->queue_two, sizeof(wsd_work_stealing_deque_t), 2 * t + 2, 1 << 20);
   }
